@@ -6,6 +6,7 @@ mod candle;
 mod flat;
 mod gen;
 mod methods;
+mod renko;
 mod rng;
 mod util;
 mod window;
@@ -61,6 +62,7 @@ fn main() {
 			"window" => window::suite(&mut out, seed, thorough),
 			"action" => action::suite(&mut out, seed, thorough),
 			"candle" => candle::suite(&mut out, seed, thorough),
+			"renko" => renko::suite(&mut out, seed, thorough),
 			"methods" => {
 				let filter: Vec<String> = arg(&args, "--methods")
 					.map(|s| s.split(',').map(|x| x.to_string()).collect())
@@ -82,6 +84,7 @@ fn dispatch_replay(out: &mut Out, _suite: &str, id: u64, comp: &str, lines: &[St
 		"method" => methods::replay_case(out, id, lines),
 		"action" => action::replay_case(out, id, lines),
 		"candle" => candle::replay_case(out, id, lines),
+		"renko" => renko::replay_case(out, id, lines),
 		other => panic!("replay: unknown component {other}"),
 	}
 }
